@@ -483,7 +483,8 @@ pub fn gen_job(rng: &mut Rng, heavy_ok: bool) -> Job {
 #[derive(Clone, Debug, Serialize, Deserialize)]
 pub struct Trace {
     pub hash_seed: u64,
-    /// "n objects compiled earlier in this process"
+    /// value of the process-wide object counter when the run starts
+    /// ("n objects compiled earlier in this process")
     pub counter_bump: u64,
     /// unrelated prior jobs executed by the main task before the concurrent phase
     pub prior: Vec<Job>,
@@ -506,7 +507,10 @@ fn reference(job: &Job) -> JobOut {
         return v.clone();
     }
     let j = job.clone();
-    let out = hashseed::run_on_fresh_thread(0, 16 << 20, move || run_job(&j)).unwrap_or(JobOut::Err("refpanic".into()));
+    let out = hashseed::run_on_fresh_thread(0, 16 << 20, move || {
+        write_fonts::verif_set_object_counter(0);
+        run_job(&j)
+    }).unwrap_or(JobOut::Err("refpanic".into()));
     m.lock().unwrap().insert(k, out.clone());
     out
 }
@@ -560,7 +564,7 @@ impl Engine for CompileDeterminism {
             let tt2 = tt.clone();
             let res3 = res2.clone();
             sched::run_sim(&tt.sched, replay.as_ref(), move || {
-                write_fonts::verif_bump_object_counter(tt2.counter_bump);
+                write_fonts::verif_set_object_counter(tt2.counter_bump);
                 for (i, j) in tt2.prior.iter().enumerate() {
                     let o = run_job(j);
                     res3.lock().unwrap().push((usize::MAX, i, o));
